@@ -25,7 +25,8 @@
     compartment sizes applied, ids renamed) is external -- its output is the input here, and
     [C17_import_correct_doc_partial] takes its meaning-preservation as an explicit hypothesis. *)
 From Coq Require Import String List QArith.
-From SbmlImp Require Import SbmlExpr SbmlImport SbmlRun SbmlSpec SbmlProofs SbmlWitness SbmlRefute SbmlRunProofs SbmlPick GenSbmlFacts.
+From SbmlImp Require Import SbmlExpr SbmlImport SbmlRun SbmlSpec SbmlProofs SbmlWitness SbmlRefute SbmlRunProofs SbmlPick
+  SbmlVariants SbmlWitness2 SbmlVariantsProofs GenSbmlFacts.
 Import ListNotations.
 Open Scope string_scope.
 
@@ -188,3 +189,78 @@ Example C17_nonvacuous :
        = Val (ic, [(args, [("A", (-132)#1); ("B", 262#1); ("lambda_", 8#1)]%Q)]).
 Proof. exact (nonvacuous gen_facts C17_facts_pinned). Qed.
 Print Assumptions C17_nonvacuous.
+
+(** ---------------------------------------------------------------------------------------------------
+    Three further regenerated facts (SbmlVariants.v: which reactions _codegen hands to the generator, how a
+    generated def refers to the math module, how plain numbers are written) and what they give.
+    [run_module2 gen_facts2 gen_facts] is the pipeline behind these steps; the correspondence check runs it. *)
+Theorem C17_facts2_pinned : gen_facts2 = expected_facts2.
+Proof. vm_compute. reflexivity. Qed.
+Print Assumptions C17_facts2_pinned.
+
+(** for the facts of the tree no reaction is dropped and no number is changed on the way into the module:
+    the pipeline behind the three steps IS the pipeline of the theorems above *)
+Theorem C17_nothing_dropped_nothing_rounded :
+  forall (fs : expr -> list string) (file : string) (tm : tmodel),
+    carried gen_facts2 tm = Some tm
+    /\ run_module2 gen_facts2 gen_facts fs file tm = run_module gen_facts fs file tm.
+Proof. exact (nothing_dropped gen_facts2 C17_facts2_pinned gen_facts). Qed.
+Print Assumptions C17_nothing_dropped_nothing_rounded.
+
+(** FULL STATEMENT: without [NoReserved] / [NoKeyCollision] (see C17_import_correct_partial).
+    Every reaction of the document is a reaction of the Model -- also one that changes no variable (only
+    modifiers / boundary species / no participants) and that no other math reads --, in the document's order
+    and acting on the same species; a constant (Float) coefficient is the document's number, unchanged *)
+Theorem C17_every_reaction_imported_partial :
+  forall (fs : expr -> list string) (file : string) (tm : tmodel),
+    FsOk fs -> WellFormed tm -> NoReserved tm -> NoKeyCollision gen_facts fs tm ->
+    exists m, run_module2 gen_facts2 gen_facts fs file tm = Some m
+      /\ map (fun p => (fst p, map fst (mr_st (snd p)))) (m_rxn m) = map (fun p => (fst p, map fst (tr_st (snd p)))) (t_rxn tm)
+      /\ (forall r rx sp q, In (r, rx) (t_rxn tm) -> In (sp, ENum true q) (tr_st rx) ->
+            exists mr, In (r, mr) (m_rxn m) /\ In (sp, MSNum q) (mr_st mr)).
+Proof. exact (reactions_imported gen_facts gen_facts2 C17_facts_pinned C17_facts2_pinned). Qed.
+Print Assumptions C17_every_reaction_imported_partial.
+
+(** regression witness for the seeded shape C17-5 ([skip_facts2]: a reaction with an empty transformed
+    stoichiometry is skipped unless other math reads its id): a well-formed, closed document without reserved
+    names or clashing keys declares the reactions sense (modifier only) and v1; the built Model has v1 only *)
+Theorem C17_unread_reaction_skipped_refuted :
+  exists (tm : tmodel) (file : string) (m : mmodel),
+    WellFormed tm /\ NoReserved tm /\ Closed tm /\ NoKeyCollision gen_facts fsyms tm
+    /\ run_module2 skip_facts2 gen_facts fsyms file tm = Some m
+    /\ map fst (t_rxn tm) = ["sense"; "v1"] /\ map fst (m_rxn m) = ["v1"].
+Proof. exact (unread_reaction_skipped gen_facts C17_facts_pinned). Qed.
+Print Assumptions C17_unread_reaction_skipped_refuted.
+
+(** regression witness for the seeded shape C17-6 ([lit15_facts2]: coefficients written by SymPy's printer with
+    15 significant digits): the coefficient 0.3333333333333333 of P in v1 (a double in [1/4, 1/2), unit in the
+    last place 2^-54) reaches the Model as a number more than 2^-55 away -- so whatever correctly rounding
+    reader parses the literal, the Model does not hold the document's coefficient *)
+Theorem C17_fifteen_digit_coefficient_refuted :
+  exists (tm : tmodel) (file : string) (m : mmodel) (q q' : Q),
+    WellFormed tm /\ NoReserved tm /\ NoKeyCollision gen_facts fsyms tm
+    /\ run_module2 lit15_facts2 gen_facts fsyms file tm = Some m
+    /\ tcoef tm "v1" "P" = Some (ENum true q) /\ mcoef_of m "v1" "P" = Some (MSNum q')
+    /\ (1 # 4 <= q)%Q /\ (q < 1 # 2)%Q /\ (1 # 36028797018963968 < Qabs.Qabs (q' - q))%Q.
+Proof. exact (fifteen_digit_coefficient gen_facts C17_facts_pinned). Qed.
+Print Assumptions C17_fifteen_digit_coefficient_refuted.
+
+(** ... and the same document through the facts of the tree keeps that coefficient *)
+Theorem C17_coefficient_kept_on_witness :
+  exists (m : mmodel) (q : Q), run_module2 gen_facts2 gen_facts fsyms "mb_w" w_precise = Some m
+    /\ tcoef w_precise "v1" "P" = Some (ENum true q) /\ mcoef_of m "v1" "P" = Some (MSNum q).
+Proof. exact (repr_coefficient_kept gen_facts gen_facts2 C17_facts_pinned C17_facts2_pinned). Qed.
+Print Assumptions C17_coefficient_kept_on_witness.
+
+(** the names a generated module needs are exactly the [reserved] list of the hypothesis NoReserved: generated
+    defs refer to math functions as math.<name>, so exp, log, sin, ... are ordinary ids.  (How a captured name
+    misbehaves is NOT modelled; this pins the guard.)  Witness = seeded shape C17-4: a species called log and a
+    parameter called exp inside laws that call ln() and exp() meet every hypothesis of the import theorem; with
+    bare references ([bare_facts2]) both would be names the module needs *)
+Theorem C17_math_names_are_free :
+  (forall tm, NoReserved2 gen_facts2 tm <-> NoReserved tm)
+  /\ WellFormed w_mathids /\ NoReserved w_mathids /\ Closed w_mathids /\ NoKeyCollision gen_facts fsyms w_mathids
+  /\ In "exp" (tm_names w_mathids) /\ In "log" (tm_names w_mathids)
+  /\ NoReserved2 expected_facts2 w_mathids /\ ~ NoReserved2 bare_facts2 w_mathids.
+Proof. exact (math_names_statement gen_facts gen_facts2 C17_facts_pinned C17_facts2_pinned). Qed.
+Print Assumptions C17_math_names_are_free.
